@@ -25,7 +25,8 @@ TRUSTED = ["Py/Slice.lean + Py/ListSpec.lean (Python slice.indices / list semant
            "real Python list on the same exhaustive domain each run",
            "Model/BtArray.lean (NumPy indexing / np.delete / np.insert / np.append collapsed to list operations) compared "
            "with the real classes on the same domain"]
-ASSUMPTIONS = ["indices are int / slice (bool and other __index__ objects are outside the property's text, DESIGN.md §10)"]
+ASSUMPTIONS = ["indices are int (incl. bool, which is an int) / slice; other __index__ objects (np.int64 …) are rejected by the classes with TypeError and are "
+               "outside the property's text, DESIGN.md §10"]
 
 
 def fmt(x):
@@ -128,7 +129,7 @@ def run(ctx):
             return f"setslice {fmt(op[1])} {fmt(op[2])} {fmt(op[3])} [{','.join(map(str, op[4]))}]"
         if name in ("extend", "iadd"):
             return f"extend [{','.join(map(str, op[1]))}]"
-        return " ".join([name] + [str(x) for x in op[1:]])
+        return " ".join([name] + [str(int(x) if isinstance(x, bool) else x) for x in op[1:]])     # a bool index is the integer 0 / 1
 
     def run_case(cls, acls, init, ops, array_args=False):
         first = [cls.from_ticks(v) for v in init]
@@ -172,7 +173,7 @@ def run(ctx):
                 if not full and rng.random() > 0.5:
                     continue
                 run_case(cls, acls, init, [("setslice", st, sp, se, list(range(10, 10 + m)))])
-        for i in range(-7, 8):
+        for i in list(range(-7, 8)) + [True, False]:      # bool is an int: True / False index elements 1 / 0, as in a list
             run_case(cls, acls, init, [("get", i)])
             run_case(cls, acls, init, [("set", i, 7)])
             run_case(cls, acls, init, [("del", i)])
@@ -190,6 +191,8 @@ def run(ctx):
             k = rng.choice(["get", "set", "del", "getslice", "setslice", "delslice", "insert", "append", "extend", "extendself", "setself", "setselfslice",
                             "iadd", "pop", "remove", "reverse", "clear", "index", "count", "len"])
             i = rng.randint(-8, 8)
+            if rng.random() < 0.08:
+                i = rng.choice([True, False])
             v = rng.choice(pool)
             sl = (rng.choice(bounds), rng.choice(bounds), rng.choice(steps))
             if k in ("get", "del", "pop"): ops.append((k, i))
